@@ -106,11 +106,14 @@ type gen struct {
 	ref      *refState
 	ops      []Op
 	snaps    []*refState
+	// protected accounts are never chosen as the target of a random mutation
+	// (the bound balance token contract: deleting it deletes every balance)
+	protected map[common.Address]bool
 }
 
 func newGen(rng *rand.Rand, salt string) *gen {
 	return &gen{rng: rng, salt: salt, nAddr: 24 + rng.Intn(200),
-		everKeys: map[common.Address]map[string]struct{}{}, everAddr: map[common.Address]struct{}{}}
+		everKeys: map[common.Address]map[string]struct{}{}, everAddr: map[common.Address]struct{}{}, protected: map[common.Address]bool{}}
 }
 
 // addrOf: addresses come in groups of 8 sharing the first 19 bytes, and groups
@@ -137,7 +140,11 @@ func (g *gen) existing() (common.Address, bool) {
 		return common.Address{}, false
 	}
 	as := g.ref.sortedAddrs()
-	return as[g.rng.Intn(len(as))], true
+	a := as[g.rng.Intn(len(as))]
+	if g.protected[a] {
+		return common.Address{}, false
+	}
+	return a, true
 }
 
 func (g *gen) emit(o Op) { g.ops = append(g.ops, o) }
@@ -378,7 +385,7 @@ func (g *gen) oneOp(older []*refState) {
 			as := old.sortedAddrs()
 			if len(as) > 0 {
 				a := as[g.rng.Intn(len(as))]
-				if len(old.Accts[a].Storage) <= 80 {
+				if len(old.Accts[a].Storage) <= 80 && !g.protected[a] {
 					want := map[string][]byte{}
 					for k, v := range old.Accts[a].Storage {
 						want[k] = v
